@@ -41,6 +41,9 @@ func (r *Replayer) workDir() string {
 }
 
 func (r *Replayer) Cleanup() {
+	if os.Getenv("VERIF_KEEPWORK") != "" {
+		return
+	}
 	if r.work != "" {
 		os.RemoveAll(r.work)
 	}
